@@ -5,28 +5,40 @@ import SpecterModel.C45.Model
 ```
 reset
 scenario <hex json: how the harness re-creates this save>      => ok
-init <hex old content> <hex stale tmp content | _>           => ok
+init <hex old content> <hex stale tmp content | _> [n1 … nk]  => ok
+       (no names: cfg is a regular file; names: cfg is a symbolic link to n1, n1 to n2, …, nk is the file)
 op <openTrunc fd name | write fd hex | fsync fd | close fd | rename a b | unlink a | other what>
        => <content of cfg with everything written: hex|absent> <real reader: old|new|…>
           <content of cfg with unsynced data lost: hex|absent> <real reader: old|new|…>
 shape  => atomic <hex of all bytes written>
 ```
-The config path is the name `cfg`. Each `op` line is one prefix of the recorded list: the harness
+The config path is the name `cfg`; it is read through symbolic links. Each `op` line is one prefix of the recorded list: the harness
 rebuilt both crash images on disk with real system calls and parsed them with the real `NewConfig`;
 the model computes the same two images (DIFF when the bytes differ); the verdict of the real reader
 must be `old` or `new` (SPEC otherwise). `shape`: the recorded list must satisfy `isAtomicReplace`
-(the hypothesis of `atomic_replace_safe`). -/
+and its temporary name must be private in the start state (`tmpPrivate`) — the hypotheses of
+`atomic_replace_safe`. -/
 namespace Specter.C45
 open Specter.Util
 
 structure St where
+  fs0 : Fs             -- the start state of the save (for the state-dependent side condition of the shape)
   fs : Fs
   ops : List FsOp      -- reversed
 
 def emptyFs : Fs := { dir := fun _ => none, file := fun _ => ⟨[], 0⟩, fd := fun _ => none, next := 0 }
 
-def initFs (old : List Nat) (stale : Option (List Nat)) : Fs :=
-  { dir := fun p => if p = "cfg" then some 0 else if p = "tmp" ∧ stale.isSome then some 1 else none,
+/-- `a → b → … → last`: every name but the last is a symbolic link to the next, the last is the file 0 -/
+def chainDir : List String → String → Option Entry
+  | [], _ => none
+  | [last], p => if p = last then some (.file 0) else none
+  | a :: b :: r, p => if p = a then some (.link b) else chainDir (b :: r) p
+
+def initFs (old : List Nat) (stale : Option (List Nat)) (chain : List String) : Fs :=
+  { dir := fun p =>
+      match chainDir ("cfg" :: chain) p with
+      | some e => some e
+      | none => if p = "tmp" ∧ stale.isSome then some (.file 1) else none,
     file := fun i => if i = 0 then ⟨old, old.length⟩ else
       match stale with
       | some st => if i = 1 then ⟨st, st.length⟩ else ⟨[], 0⟩
@@ -49,39 +61,52 @@ def showImage : Option (List Nat) → String
 
 def okVerdict (v : String) : Bool := v = "old" || v = "new"
 
-def shapeName (ops : List FsOp) : String :=
-  if isAtomicReplace "cfg" ops then "atomic"
+def shapeName (fs0 : Fs) (ops : List FsOp) : String :=
+  if isAtomicReplace "cfg" ops then
+    (if tmpPrivate fs0 "cfg" ops then "atomic" else "atomic-but-temporary-name-not-private")
   else if isTruncateInPlace "cfg" ops then "truncate-in-place"
   else "other"
 
+def showOp : FsOp → String
+  | .openTrunc _ p => s!"open+truncate {p}"
+  | .write _ bs => s!"write of {bs.length} bytes"
+  | .fsync _ => "fsync"
+  | .close _ => "close"
+  | .rename a b => s!"rename {a} {b}"
+  | .unlink p => s!"unlink {p}"
+  | .other w => w
+
 def step' (st : St) (toks : List String) (rhs : String) : St × Verdict :=
   match toks with
-  | ["reset"] => (⟨emptyFs, []⟩, .ok)
+  | ["reset"] => (⟨emptyFs, emptyFs, []⟩, .ok)
   | ["scenario", _] => (st, .ok)          -- replay information for the harness only
-  | ["init", o, stale] =>
+  | "init" :: o :: stale :: chain =>
     match hexToBytes o, (if stale = "_" then some none else (hexToBytes stale).map some) with
-    | some old, some st => (⟨initFs old st, []⟩, .ok)
+    | some old, some st => (⟨initFs old st chain, initFs old st chain, []⟩, .ok)
     | _, _ => (st, .bad "init args")
   | "op" :: optoks =>
     match parseOp optoks, rhs.splitOn " " with
     | some op, [syncHex, syncV, lossyHex, lossyV] =>
       let fs := step st.fs op
-      let st' : St := ⟨fs, op :: st.ops⟩
+      let st' : St := ⟨st.fs0, fs, op :: st.ops⟩
       let k := st'.ops.length
+      let via := match st.fs0.dir "cfg" with
+        | some (.link _) => "; the config path is a symbolic link"
+        | _ => ""
       if !okVerdict syncV then
-        (st', .spec s!"crash after operation {k}: the config file is neither the previous nor the new configuration (reader: {syncV})")
+        (st', .spec s!"crash after operation {k} ({showOp op}{via}): the config file is neither the previous nor the new configuration (reader: {syncV})")
       else if !okVerdict lossyV then
-        (st', .spec s!"crash after operation {k} with unsynced data lost: the config file is neither the previous nor the new configuration (reader: {lossyV})")
+        (st', .spec s!"crash after operation {k} ({showOp op}{via}) with unsynced data lost: the config file is neither the previous nor the new configuration (reader: {lossyV})")
       else
         let m := showImage (imageSync fs "cfg") ++ " " ++ showImage (imageLossy fs "cfg")
         if m ≠ syncHex ++ " " ++ lossyHex then (st', .diff m) else (st', .ok)
     | _, _ => (st, .bad "op args")
   | ["shape"] =>
     let ops := st.ops.reverse
-    let m := shapeName ops ++ " " ++ bytesToHex (pending ops)
+    let m := shapeName st.fs0 ops ++ " " ++ bytesToHex (pending ops)
     if m ≠ rhs then (st, .diff m) else (st, .ok)
   | _ => (st, .bad "unknown op")
 
-def main : IO Unit := runLoop (⟨emptyFs, []⟩ : St) step'
+def main : IO Unit := runLoop (⟨emptyFs, emptyFs, []⟩ : St) step'
 
 end Specter.C45
